@@ -533,7 +533,10 @@ template<class T> constexpr T spice(T*t) {return *t;}
 //Array ops
 
 #define rBOILS_BEGIN rBOIL_BEGIN \
-            const char *mm = msg; \
+            /* the index stands where the port's name has its '#' */ \
+            /* (the name itself may contain digits) */ \
+            const char *hash_pos = strchr(data.port->name, '#'); \
+            const char *mm = hash_pos ? msg + (hash_pos - data.port->name) : msg; \
             while(*mm && !isdigit(*mm)) ++mm; \
             unsigned idx = atoi(mm);
 
